@@ -42,6 +42,7 @@ type Marshaler struct {
 	session iterator.Session
 	encoder EncoderEventReceiver
 	config  *configuration.Configuration
+	rules   rules.RulesEventReceiver
 }
 
 // Create a new marshaler with the specified configuration.
@@ -56,6 +57,7 @@ func (_this *Marshaler) Init(config *configuration.Configuration) {
 	_this.config = config
 	_this.session.Init(nil, _this.config)
 	_this.encoder.Init(_this.config)
+	_this.rules.Init(nil, _this.config)
 }
 
 // Marshal a go object into a CTE document, written to writer.
@@ -74,7 +76,13 @@ func (_this *Marshaler) Marshal(object interface{}, writer io.Writer) (err error
 	}
 
 	_this.encoder.PrepareToEncode(writer)
-	iterator := _this.session.NewIterator(&_this.encoder)
+	receiver := events.DataEventReceiver(&_this.encoder)
+	if _this.config.Marshal.EnforceRules {
+		_this.rules.Reset()
+		_this.rules.SetNextReceiver(receiver)
+		receiver = &_this.rules
+	}
+	iterator := _this.session.NewIterator(receiver)
 	iterator.Iterate(object)
 	return
 }
